@@ -106,7 +106,8 @@ class C02(GenCheck):
         if r < 0.5 and names:
             return ["v", rng.choice(names)]
         if r < 0.6 and case["regs"]:
-            return ["r", "x", case["regs"][0][1]]
+            kind, no = rng.choice(case["regs"])
+            return ["r", kind, no]
         if r < 0.8:
             return ["c", rng.choice([0, 1, 2, 3, 7, 10, 100, 1000, 12345])]
         return ["c", float(rng.choice(DECIMALS))]
@@ -131,9 +132,13 @@ class C02(GenCheck):
                 hi = min((1 << 8 * dsl.fmt_size(fmt) - (1 if dsl.fmt_signed(fmt) else 0)) - 1, 10 ** 6)
                 values[f"v{k}"] = rng.choice([0, 1, 2, 3, 10, 100, rng.randint(0, hi), rng.randint(0, min(hi, 200))])
         case = {"regs": [], "reginit": {}}
-        if rng.random() < 0.3:
+        if rng.random() < 0.35:
             case["regs"] = [("x", 3)]
-            case["reginit"] = {3: rng.choice([0, 1.5, 0.29, 2.75, 10.0, 123.456])}
+            case["reginit"] = {3: rng.choice([0, 1.5, 0.29, 2.75, 10.0, 123.456, -1.5, -0.29, -2.75, -123.456])}
+            if rng.random() < 0.5:
+                # a 32-bit integer register next to the fixed-point one
+                case["regs"].append((rng.choice(["w", "sw"]), 2))
+                case["reginit"][2] = rng.choice([0, 1, 2, 3, 10, 100, 1000])
         dfmt = rng.choice(["x", "x", "q", "Q", "i", "I"])
         decls.append(("d", rng.choice(["local", "array"]), dfmt))
         values["d"] = 1
@@ -146,6 +151,17 @@ class C02(GenCheck):
             # a bare decimal constant assigned to the destination (conversion at the assignment only)
             e = ["c", float(rng.choice(DECIMALS + ["2.7", "3.5", "0.99999", "7.6", "41.50001", "1234.56789", "0.5", "2.5"]))]
         case["expr"] = e
+        if case["regs"] and rng.random() < 0.3:
+            # the destination is the fixed-point register, which the expression itself reads (left or right of an integer or
+            # fixed-point operand): e.x3 = e.w2 * e.x3
+            case["regdest"] = ["x", 3]
+            R = ["r", "x", 3]
+            A = self.rand_leaf(rng, names, case)
+            if rng.random() < 0.5 and len(case["regs"]) > 1:
+                A = ["r", case["regs"][1][0], 2]
+            op = rng.choice(["+", "-", "*", "*"])
+            case["expr"] = rng.choice([[op, A, R], [op, R, A], [op, A, [rng.choice(["+", "-"]), R, self.rand_leaf(rng, names, case)]]])
+            return case
         if rng.random() < 0.3:
             # a comparison mixing integer and fixed-point operands; the constant is placed next to the other side's value
             a = self.rand_expr(rng, names, case, rng.choice([0, 0, 1]))
@@ -173,8 +189,15 @@ class C02(GenCheck):
         return [mk(["+", ["v", "v0"], ["c", 0.29]]), mk(["*", ["v", "v0"], ["c", 0.57]]), mk(["-", ["v", "v0"], ["c", 0.58]]),
                 mk(["//", ["v", "v0"], ["c", 0.29]], "q")]
 
+    def dest_fmt(self, case):
+        return "x" if case.get("regdest") else self.fmt_of(case, case["dest"])
+
     def stmts(self, case):
-        st = [["set", ["r", "x", no], ["c", v]] for no, v in sorted(case["reginit"].items())]
+        kinds = {no: k for k, no in case["regs"]}
+        st = [["set", ["r", kinds.get(no, "x"), no], ["c", v]] for no, v in sorted(case["reginit"].items())]
+        if case.get("regdest"):
+            st.append(["set", ["r", case["regdest"][0], case["regdest"][1]], case["expr"]])
+            return st
         if "cmp" in case:
             st.append(["if", case["cmp"], [["set", ["v", "d"], ["c", 1]]], [["set", ["v", "d"], ["c", 2]]]])
         else:
@@ -200,7 +223,7 @@ class C02(GenCheck):
             return Fraction(x[1]), False
         if x[0] == "r":
             v = case["reginit"][x[2]]
-            return Fraction(str(v)), True
+            return (Fraction(str(v)), True) if x[1] == "x" else (Fraction(v), False)
         fmt = self.fmt_of(case, x[1])
         v = case["values"][x[1]]
         return (Fraction(v, FB), True) if fmt == "x" else (Fraction(v), False)
@@ -272,6 +295,8 @@ class C02(GenCheck):
             if isinstance(x[1], float):
                 return f"(FConstF {cz(self.const_scaled(x[1]))})"
             return f"(FInt (EConst {cz(x[1])}))"
+        if x[0] == "r" and x[1] != "x":
+            return f"(FInt (EReg {cz(case['reginit'][x[2]] % (1 << 64))} false {cbool(x[1] == 'sw')}))"
         if x[0] == "r":
             return f"(FFix (EReg {cz(self.const_scaled(case['reginit'][x[2]]) % (1 << 64))} true true))"
         if x[0] == "v":
@@ -305,7 +330,7 @@ class C02(GenCheck):
             if a[0] == "c":
                 op, a, b = self.MIRROR[op], b, a       # Python evaluates const < expr as expr > const
             return f"(run_cmp {self.CMPN[op]} {self.cf(case, a)} {self.cf(case, b)})"
-        dfmt = self.fmt_of(case, case["dest"])
+        dfmt = self.dest_fmt(case)
         return f"(run {self.cf(case, case['expr'])} {cbool(dfmt == 'x')} {cnat(dsl.fmt_size(dfmt))})"
 
     def model_value(self, case, o):
@@ -313,7 +338,7 @@ class C02(GenCheck):
             return o["stored"]
         if "cmp" in case:
             return 1 if o["dest"] == 1 else 0
-        dfmt = self.fmt_of(case, case["dest"])
+        dfmt = self.dest_fmt(case)
         return o["dest"] % (1 << 8 * dsl.fmt_size(dfmt))
 
     def run_impl(self, case):
@@ -329,6 +354,9 @@ class C02(GenCheck):
         if status != [1]:
             return Err(7, f"program did not exit normally: status {status}")
         amap = maps[0] if maps else []
+        if case.get("regdest"):
+            return {"dest": dsl.from_bytes("q", dsl.to_bytes("q", regs[case["regdest"][1]])),
+                    "others": {n: read_var(n, b, stack, amap) for n in b.layout}}
         return {"dest": read_var(case["dest"], b, stack, amap),
                 "others": {n: read_var(n, b, stack, amap) for n in b.layout if n != case["dest"]}}
 
@@ -343,9 +371,9 @@ class C02(GenCheck):
             return self.holds_cmp(case, o)
         q, f, ok, neg = self.meaning(case, case["expr"])
         case["_negdiv"] = neg
-        dfmt = self.fmt_of(case, case["dest"])
+        dfmt = self.dest_fmt(case)
         leaves = exprs.leaves(case["expr"])
-        narrow = dsl.fmt_size(dfmt) <= 4 or any(l[0] == "v" and dsl.fmt_size(self.fmt_of(case, l[1])) <= 4 for l in leaves)
+        narrow = dsl.fmt_size(dfmt) <= 4 or any((l[0] == "v" and dsl.fmt_size(self.fmt_of(case, l[1])) <= 4) or (l[0] == "r" and l[1] in ("w", "sw")) for l in leaves)
         W = 32 if narrow else 64
         if not ok or not self.fits(case, case["expr"], W):
             return True
@@ -359,7 +387,7 @@ class C02(GenCheck):
             return True
         want = [dsl.from_bytes(dfmt, dsl.to_bytes(dfmt, w)) for w in want]
         if o["dest"] not in want:
-            return (f"{case['dest']}:{dfmt} = {case['expr']} with {case['values']} {case['reginit']} stored {o['dest']}, the exact result "
+            return (f"{'x3' if case.get('regdest') else case['dest']}:{dfmt} = {case['expr']} with {case['values']} {case['reginit']} stored {o['dest']}, the exact result "
                     f"{q} dropped to the destination is {want[0]}")
         for n, v in o["others"].items():
             if v != case["values"][n]:
@@ -376,7 +404,7 @@ class C02(GenCheck):
                 x = x[1]
             return x[0] == "c"          # an operation whose left-most operand is a constant is computed at the constant's (32-bit) width
 
-        narrow = any(l[0] == "v" and dsl.fmt_size(self.fmt_of(case, l[1])) <= 4 for l in exprs.leaves(a) + exprs.leaves(b)) \
+        narrow = any((l[0] == "v" and dsl.fmt_size(self.fmt_of(case, l[1])) <= 4) or (l[0] == "r" and l[1] in ("w", "sw")) for l in exprs.leaves(a) + exprs.leaves(b)) \
             or (a[0] not in ("c", "v", "r") and leftmost_small_const(a)) or (b[0] not in ("c", "v", "r") and leftmost_small_const(b))
         W = 32 if narrow else 64
         if not (oka and okb and self.fits(case, a, W) and self.fits(case, b, W)):
@@ -402,7 +430,7 @@ class C02(GenCheck):
 
     def rule(self):
         return ("dest (x / q / Q / i / I) = tree of depth 1-3 over + - * / // % with x-format variables (scaled values incl. 29000, 99999, 10**9), integer "
-                "variables of all formats, x registers set from decimals, integer constants and float constants incl. 0.29, 0.57, 0.58, 1.15, 2.675, 4.35, "
+                "variables of all formats, x registers set from decimals (also negative ones), 32-bit integer registers, 10% with the fixed-point register as the destination of an expression that reads it, integer constants and float constants incl. 0.29, 0.57, 0.58, 1.15, 2.675, 4.35, "
                 "99999.99999, 0.00001; non-negative operand values (differences may be negative); checked when all scaled operands and intermediates fit; "
                 "a further twelfth of that number: 1-5 decimals (positive and negative, up to five fractional digits) assigned from Python to x-format array-map "
                 "or hash-map variables of a loaded program - the stored integer must be the exact scaled decimal")
@@ -414,7 +442,8 @@ class C02(GenCheck):
                 d["assigned_from_python"] += len(c["decimals"])
                 d["negative_from_python"] += sum(1 for x in c["decimals"] if x.startswith("-"))
                 continue
-            d["x_dest"] += self.fmt_of(c, c["dest"]) == "x"
+            d["x_dest"] += self.dest_fmt(c) == "x"
+            d["register_destination"] = d.get("register_destination", 0) + bool(c.get("regdest"))
             d["build_errors"] += isinstance(o, Err)
             for l in exprs.leaves(c["expr"]):
                 d["float_consts"] += l[0] == "c" and isinstance(l[1], float)
